@@ -88,6 +88,7 @@ DeepProg(pk, form, abbr, w, PP, CP, x, mu, real) ==
 \* flow "refuse": unsigned or payload-less parents
 RefuseProg(pk, form, abbr, why, x) ==
   MakeParent(pk, FALSE, P1, IF why = "unsigned" THEN <<>> ELSE ParSig, IF why = "nopayload" THEN NilPayload ELSE Pay)
+  \o (IF why = "emptied" THEN <<[op |-> "setsig", obj |-> "par", slot |-> 0, sig |-> <<>>, nonnil |-> TRUE]>> ELSE <<>>)      \* signed, then reset to an empty, non-nil slice
   \o (IF abbr THEN <<[op |-> "countersign0", obj |-> "", parent |-> "par", form |-> form, signers |-> <<Sg>>, buf |-> "z"] @@ x>>
       ELSE <<[op |-> "new", obj |-> "cs", kind |-> "csig", m |-> [P |-> P2, U |-> <<>>, sig |-> <<>>]],
              [op |-> "countersign", obj |-> "cs", parent |-> "par", form |-> form, signers |-> <<Sg>>] @@ x>>)
@@ -145,8 +146,8 @@ PickList == st.phase = 0 /\ \E pk \in {"sign1", "sign", "sig"} : \E label \in {7
               st' = [phase |-> 1, flow |-> "list", pk |-> pk, label |-> label, n |-> n, x |-> x]
 PickBind == st.phase = 0 /\ \E pk \in PKinds : \E form \in {"ptr", "val"} : \E abbr \in BOOLEAN : \E dec \in BOOLEAN : \E x \in Exts : \E mu \in Mutations(pk) :
               st' = [phase |-> 1, flow |-> "bind", pk |-> pk, form |-> form, abbr |-> abbr, dec |-> dec, x |-> x, mu |-> mu]
-PickRefuse == st.phase = 0 /\ \E pk \in PKinds : \E form \in {"ptr", "val"} : \E abbr \in BOOLEAN : \E why \in {"unsigned", "nopayload"} :
-              (why = "nopayload" => pk \in {"sign1", "sign"})
+PickRefuse == st.phase = 0 /\ \E pk \in PKinds : \E form \in {"ptr", "val"} : \E abbr \in BOOLEAN : \E why \in {"unsigned", "nopayload", "emptied"} :
+              (why = "nopayload" => pk \in {"sign1", "sign"}) /\ (why = "emptied" => pk # "sign")
               /\ st' = [phase |-> 1, flow |-> "refuse", pk |-> pk, form |-> form, abbr |-> abbr, why |-> why, x |-> X1]
 PickReplay == st.phase = 0 /\ \E r \in {"as-message-signature", "abbreviated-as-full", "full-as-abbreviated", "signature-as-countersignature"} :
               st' = [phase |-> 1, flow |-> "replay", r |-> r]
